@@ -236,10 +236,10 @@ CHECKS = {
                        "group. L: 13..14 call-site attributes over two keys (8192+ layouts) through the real pdqsort.",
         "bounds": {"quick": "chain depth <= 2, <= 1 own attribute per logger, <= 1 context key, <= 2 call-site attributes; groups of <= 3 members; 13 attributes over {a,b}",
                    "thorough": "chain depth <= 3, <= 1 own attribute per logger, <= 1 context key, <= 3 call-site attributes; 13..15 attributes"},
-        "outside": "attribute lists of 17..64 elements; JSON and colored observation of the same order (C04/C06 decode those formats)",
-        "assumptions": ["values are distinct integers tagging their source; observation through a logfmt logger without caller field"],
+        "outside": "attribute lists of 17..64 elements; observation through the colored format (C06 checks key order there on fixed lists)",
+        "assumptions": ["values are distinct integers tagging their source; observation through logfmt and JSON loggers without caller field"],
         "runs": [
-            {"harness": "VH_C07", "quick": {"chain": 2, "own": 1, "ctxkeys": 1, "site": 2}, "thorough": {"chain": 3, "own": 1, "ctxkeys": 1, "site": 3},
+            {"harness": "VH_C07", "quick": {"chain": 2, "own": 1, "ctxkeys": 1, "site": 2, "json": 1}, "thorough": {"chain": 3, "own": 1, "ctxkeys": 1, "site": 3, "json": 1},
              "covers": ["C07:compared"]},
             {"harness": "VH_C07G", "quick": {"members": 3}, "thorough": {"members": 4}, "covers": ["C07G:compared"]},
             {"harness": "VH_C07L", "quick": {"extra": 1}, "thorough": {"extra": 3}, "covers": ["C07L:compared"]},
